@@ -398,14 +398,15 @@ def identical_method(dt, kind):
     H.cover("done")
 
 
-@harness(props=["C07", "C03"], strength="B", family=lambda t, s: [{"k": k, "ranges": r} for k in ((1, 2, 3) if t == "quick" else (1, 2, 3, 4))
-                                                                  for r in (False, True)],
+@harness(props=["C07", "C03"], strength="B",
+         family=lambda t, s: [{"k": k, "ranges": r, "inverse": False} for k in ((1, 2, 3) if t == "quick" else (1, 2, 3, 4))
+                              for r in (False, True)] + [{"k": 2, "ranges": True, "inverse": True}],
          bound="text tables of 1..3 (quick) / 1..4 (thorough) scales; limits and values symbolic integers, texts distinct",
          functions=[TexttableCompuMethod.__post_init__, TexttableCompuMethod.convert_internal_to_physical,
                     TexttableCompuMethod.convert_physical_to_internal, TexttableCompuMethod.is_valid_internal_value,
                     TexttableCompuMethod.is_valid_physical_value, CompuScale.applies],
          covers=["valid", "invalid"], crosscheck=False)
-def texttable_method(k, ranges):
+def texttable_method(k, ranges, inverse):
     """TEXTTABLE: internal->physical = text of the scale containing the value; valid iff some scale contains it; each
     text converts without error to a value of its own scale, so text -> internal -> text is the identity"""
     los = [H.int(f"lo{i}") for i in range(k)]
@@ -414,12 +415,18 @@ def texttable_method(k, ranges):
         H.assume(los[i] <= his[i])
     for i in range(k - 1):
         H.assume(his[i] < los[i + 1])  # disjoint scales (overlapping scales are an ill-formed table)
+    invs = [H.int(f"inverse{i}") for i in range(k)] if inverse else [None] * k
+    for i in range(k):
+        if inverse:
+            H.assume(H.And(los[i] <= invs[i], invs[i] <= his[i]))  # (COMPU-INVERSE-VALUE lies inside its scale)
     scales = [CompuScale(short_label=None, description=None,
                          lower_limit=Limit(value_raw=str(los[i]), value_type=DataType.A_UINT32,
                                            interval_type=IntervalType.CLOSED),
                          upper_limit=Limit(value_raw=str(his[i]), value_type=DataType.A_UINT32,
                                            interval_type=IntervalType.CLOSED),
-                         compu_inverse_value=None, compu_const=CompuConst(v=None, vt=f"text{i}",
+                         compu_inverse_value=None if not inverse else CompuConst(v=str(invs[i]), vt=None,
+                                                                                 data_type=DataType.A_INT32),
+                         compu_const=CompuConst(v=None, vt=f"text{i}",
                                                                         data_type=DataType.A_UNICODE2STRING),
                          compu_rational_coeffs=None, domain_type=DataType.A_UINT32,
                          range_type=DataType.A_UNICODE2STRING) for i in range(k)]
@@ -451,6 +458,8 @@ def texttable_method(k, ranges):
             H.check("C07:valid-physical-values-convert-without-error", False)
             return
         H.check("C07,C03:a-text-converts-to-a-value-of-its-own-scale", H.And(los[i] <= xi, xi <= his[i]))
+        if inverse:
+            H.check("C07,C03:a-text-converts-to-the-inverse-value-of-its-scale-if-one-is-given", xi == invs[i])
     H.check("C07:unknown-text-is-not-valid", H.Not(cm.is_valid_physical_value("no such text")))
 
 
